@@ -1,4 +1,5 @@
 import DaskModel.Lemmas.LegacyOpt
+import DaskModel.Lemmas.Subs
 /-!
 # C09 — low-level graph optimisations preserve requested values
 
@@ -132,6 +133,51 @@ theorem cull_preserves_get_refuted :
   refine ⟨[(.str "a", .int 1), (.str "b", .tuple [.fn 0, .tuple [.int 1, .str "a"]])],
     [(.str "b", .tuple [.fn 0, .tuple [.int 1, .str "a"]])],
     [(.str "b", [])], .str "b", by decide, by decide⟩
+
+
+/-! ### substitution-based passes (`inline`, `inline_functions`, `fuse_linear`, `fuse`)
+
+They are built from three steps: `subs(dsk[b], a, dsk[a])`, deleting a key that is no longer referenced, and renaming.
+The first two are proved here for every graph, environment and key; that the real passes apply only such steps, in a
+valid order, is validated on every run by evaluating their outputs (harness `opt` section). "Values" are taken
+equationally: a valuation `ρ` is a `Solution` of a graph when every key's value is the value of its task under `ρ`
+(what `execute_graph` establishes); on a DAG the solution is unique (`dag_values_unique`). -/
+
+/-- **`subs` preserves meaning**: replacing a key by its definition does not change the value of any term, in any
+    environment that gives the key the value of that definition. -/
+theorem subs_preserves_eval (K : List Obj) (env : Obj → Option Obj) (key val : Obj) (hk : inKeys K key = true)
+    (hv : env key = evalObj K env val) (o : Obj) : evalObj K env (subs key val o) = evalObj K env o :=
+  subs_eval K env key val hk hv o
+
+/-- **One inlining step keeps exactly the same solutions** (hence the same values for every key, requested or not). -/
+theorem inline_step_preserves_solutions (g : LGraph) (K : List Obj) (cache ρ : Obj → Option Obj) (a b ta tb : Obj)
+    (hab : a ≠ b) (ha : g.lookup a = some ta) (hb : g.lookup b = some tb) (haK : inKeys K a = true) :
+    Solution (setEntry g b (subs a ta tb)) K cache ρ ↔ Solution g K cache ρ :=
+  inline_step_solutions_iff g K cache ρ a b ta tb hab ha hb haK
+
+/-- **Deleting an unreferenced key keeps every other value** (and the values of the remaining keys do not depend on
+    the removed key being a key). -/
+theorem drop_unreferenced_preserves_values (g : LGraph) (K : List Obj) (hKt : ∀ k ∈ K, k.keyTyped = true)
+    (cache ρ : Obj → Option Obj) (a : Obj)
+    (hunref : ∀ k t, k ≠ a → g.lookup k = some t → a ∉ legacyRefs K t) (h : Solution g K cache ρ) :
+    ∀ k, k ≠ a → ρ k = match (dropEntry g a).lookup k with
+      | some t => evalObj (K.filter (fun x => !(x == a))) ρ t
+      | none => cache k :=
+  drop_unreferenced_solution g K hKt cache ρ a hunref h
+
+/-- **On a DAG the graph's equations determine every value.** -/
+theorem dag_values_unique (g : LGraph) (K : List Obj) (hKt : ∀ k ∈ K, k.keyTyped = true) (cache : Obj → Option Obj)
+    (rank : Obj → Nat) (hdag : ∀ k t, g.lookup k = some t → ∀ d ∈ legacyRefs K t, rank d < rank k)
+    (ρ ρ' : Obj → Option Obj) (h : Solution g K cache ρ) (h' : Solution g K cache ρ') : ∀ k, ρ k = ρ' k :=
+  solution_unique g K hKt cache rank hdag ρ ρ' h h'
+
+/-- non-vacuity: the doc-string example of `inline`: `z = (add, 'x', 'y')`, inlining `y = (inc, 'x')` -/
+example : subs (.str "y") (.tuple [.fn 1, .str "x"]) (.tuple [.fn 0, .str "x", .str "y"]) =
+    .tuple [.fn 0, .str "x", .tuple [.fn 1, .str "x"]] := by decide
+
+/-- `subs` does *not* look inside dict values or non-task tuples (the source of the known findings) -/
+example : subs (.str "a") (.int 1) (.tuple [.fn 0, .dict [(.str "x", .str "a")], .tuple [.int 1, .str "a"]]) =
+    .tuple [.fn 0, .dict [(.str "x", .str "a")], .tuple [.int 1, .str "a"]] := by decide
 
 /-! non-vacuity -/
 example : cull [(.str "x", .int 1), (.str "y", .tuple [.fn 0, .str "x"]), (.str "out", .tuple [.fn 1, .str "x", .int 10])]
